@@ -26,7 +26,7 @@ CBMC = os.path.join(BIN, "cbmc")
 # pretty-name patterns of functions whose bodies are removed (drop glue only)
 DROP_GLUE_RE = re.compile(
     r"^std::ptr::drop_glue::<(apache_avro::types::Value|apache_avro::Schema|apache_avro::schema::Schema|"
-    r"apache_avro::error::Details|apache_avro::Error|apache_avro::error::Error|serde_json::value::Value|serde_json::Value)> "
+    r"apache_avro::error::Details|apache_avro::Error|apache_avro::error::Error|apache_avro::error::CompatibilityError|serde_json::value::Value|serde_json::Value)> "
 )
 
 CBMC_FLAGS = ["--no-malloc-may-fail", "--no-undefined-shift-check", "--no-signed-overflow-check", "--nan-check",
@@ -142,13 +142,13 @@ def prepare(meta, workdir):
 REACH_RE = re.compile(r"KANI_CHECK_ID")
 
 
-def solve(binary, unwind, timeout, mem_gb, trace=True, slice_formula=True, fs=None):
+def solve(binary, unwind, timeout, mem_gb, trace=True, slice_formula=True, fs=None, extra=()):
     """run CBMC; returns dict(status, checks, failed_checks[], covers, covers_sat, values, time_s, ...)"""
     flags = [f for f in CBMC_FLAGS if slice_formula or f != "--slice-formula"]
     if fs is not None:
         i = flags.index("--max-field-sensitivity-array-size")
         flags[i + 1] = str(fs)
-    cmd = [CBMC] + flags + ["--unwind", str(unwind), binary, "--json-ui"]
+    cmd = [CBMC] + flags + list(extra) + ["--unwind", str(unwind), binary, "--json-ui"]
     if trace:
         cmd.append("--trace")
     rc, out, wall = _run(cmd, timeout=timeout, mem_gb=mem_gb)
@@ -226,7 +226,7 @@ def solve(binary, unwind, timeout, mem_gb, trace=True, slice_formula=True, fs=No
 _STR_RE = re.compile(r'"(?:\\.|[^"\\])*"')
 
 
-def solve_for_values(binary, unwind, timeout, mem_gb, fs=None, prop=None):
+def solve_for_values(binary, unwind, timeout, mem_gb, fs=None, prop=None, extra=()):
     """Re-solve a failing harness without formula slicing and with --trace, streaming CBMC's (potentially
     multi-GB) JSON trace from a file: only the assignments made inside kani::any_raw_* are kept.
     Returns the list of byte lists of the first failing property's trace, or None."""
@@ -234,7 +234,7 @@ def solve_for_values(binary, unwind, timeout, mem_gb, fs=None, prop=None):
     if fs is not None:
         i = flags.index("--max-field-sensitivity-array-size")
         flags[i + 1] = str(fs)
-    cmd = [CBMC] + flags + ["--unwind", str(unwind), binary, "--json-ui", "--trace", "--stop-on-fail"]
+    cmd = [CBMC] + flags + list(extra) + ["--unwind", str(unwind), binary, "--json-ui", "--trace", "--stop-on-fail"]
     if prop:
         # only the property that failed: cover properties and Kani's reachability companions also "fail"
         # (that is how they report reachability) and would otherwise be what --stop-on-fail stops at
